@@ -2,12 +2,21 @@ import Proofs.Core
 import Proofs.NNSpecLemmas
 import SynapModel.Ops
 import Proofs.SpecNN
+import Proofs.FusedIdentities
+import Proofs.FusedModules
+import Proofs.FusedGrad
+import Proofs.Fused1d
 /-!
 # C14 — Fused operations equal the compositions their documentation equates them with
 
-Value identities on the model, for all operand shapes and values.  (The gradients of both sides
-then coincide because both are vector-Jacobian products of the same function: `Props.C01.vjp_unique`;
-on the implementation both sides' values and gradients are compared by the check.)
+Value identities on the model, for all operand shapes and values.  The gradients of both sides
+then coincide because both are vector-Jacobian products of the same function: this argument is the pair of theorems
+`grad_eq_of_forward_eq` / `vjp_grad_eq_of_forward_eq` below (built on `Props.C01.vjp_unique`), instantiated for
+cross-entropy, linear and mean; on the implementation both sides' values and gradients are compared by the check.
+
+Identities through the library's `1e-12` guard are stated as they are: `log_softmax = log ∘ softmax` is exact for the
+mathematical logarithm and strictly off for the library's `log`; `BCE-with-logits = BCE ∘ sigmoid` is FALSE as an
+equality (the negation is proved), the exact relation and its `ε`-bound are theorems.
 -/
 namespace Props.C14
 open Synap Synap.NDArray Synap.Np Synap.Kernels Synap.Api Synap.Ops Proofs.Core Proofs.NNSpec
@@ -81,5 +90,298 @@ theorem movedim_adjacent_is_transpose (x : NDArray R) (a : Nat) (ha : a + 1 < x.
 alias conv2d_is_unfold_matmul := Proofs.SpecNN.conv2d_is_unfold_matmul
 alias avgpool2d_is_unfold_mean := Proofs.SpecNN.avgpool2d_is_unfold_mean
 alias maxpool2d_is_unfold_max := Proofs.SpecNN.maxpool2d_is_unfold_max
+
+/-! ## 1-d convolution and pooling  (statements and proofs in `Proofs/Fused1d.lean`)
+
+The model's 1-d kernels are defined independently of the 2-d ones; the library's `unfold` takes 4-d input only.  So the
+1-d identities go through the one-row lift `x[:, :, None, :]`:
+
+* `conv1d_is_conv2d_row`, `avgpool1d_is_avgpool2d_row`, `maxpool1d_is_maxpool2d_row`: for accepted arguments the 2-d kernel
+  with kernel `(1,k)`, stride `(1,s)`, padding `(0,p)`, dilation `(1,d)` on the lifted operands is accepted and IS the lifted
+  1-d result;
+* `conv1d_is_unfold_matmul`, `avgpool1d_is_unfold_mean`, `maxpool1d_is_unfold_max`: hence `unfold` of the lifted input followed
+  by the matrix product with the reshaped weight / the mean / the max over the kernel axis, reshaped, IS the lifted 1-d result,
+  with the entry formulas `conv1d(x,w)[n,o,t] = Σ_r wmat[o,r]·cols[n,r,t]`, `avg_pool1d(x)[n,c,t] = (Σ_q r4[n,c,q,t]) / k`,
+  `max_pool1d(x)[n,c,t]` attained on and dominating `r4[n,c,:,t]` (same guards as in 2-d). -/
+alias conv1d_is_conv2d_row := Proofs.Fused1d.conv1d_is_conv2d_row
+alias avgpool1d_is_avgpool2d_row := Proofs.Fused1d.avgpool1d_is_avgpool2d_row
+alias maxpool1d_is_maxpool2d_row := Proofs.Fused1d.maxpool1d_is_maxpool2d_row
+alias conv1d_is_unfold_matmul := Proofs.Fused1d.conv1d_is_unfold_matmul
+alias avgpool1d_is_unfold_mean := Proofs.Fused1d.avgpool1d_is_unfold_mean
+alias maxpool1d_is_unfold_max := Proofs.Fused1d.maxpool1d_is_unfold_max
+
+/-- non-vacuity: accepted 1-d calls (for max-pooling also the guards, with padding 1 and `−∞ := −100`) -/
+example : ∃ y, conv1dForward (⟨[1, 1, 3], [1, 2, 3]⟩ : NDArray Int) ⟨[1, 1, 2], [1, 1]⟩ none 1 0 1 = some y := ⟨_, rfl⟩
+example : ∃ y, avgPool1dForward (⟨[1, 1, 3], [1, 2, 3]⟩ : NDArray ℚ) 2 1 0 1 = some y := ⟨_, rfl⟩
+example : (∃ y, maxPool1dForward (⟨[1, 1, 3], [1, 2, 3]⟩ : NDArray ℚ) (-100) 2 1 1 1 = some y) ∧
+    (⟨[1, 1, 3], [1, 2, 3]⟩ : NDArray ℚ).shape.getD 0 0 ≠ 0 ∧ (⟨[1, 1, 3], [1, 2, 3]⟩ : NDArray ℚ).shape.getD 1 0 ≠ 0 ∧
+    ∀ q, validIdx (⟨[1, 1, 3], [1, 2, 3]⟩ : NDArray ℚ).shape q → (-100 : ℚ) ≤ (⟨[1, 1, 3], [1, 2, 3]⟩ : NDArray ℚ).get q := by
+  refine ⟨⟨_, rfl⟩, by decide, by decide, fun q hq => ?_⟩
+  obtain ⟨i, j, t, rfl, hi, hj, ht⟩ := Proofs.ConvTools.validIdx3 hq
+  have : i = 0 := by omega
+  have : j = 0 := by omega
+  subst_vars
+  have : t = 0 ∨ t = 1 ∨ t = 2 := by omega
+  rcases this with rfl | rfl | rfl <;> norm_num [NDArray.get, ravel, Shape.size]
+
+/-! ## identities over ℝ through `exp` / `log`  (statements and proofs in `Proofs/FusedIdentities.lean`) -/
+section Real
+open Proofs.Calc Proofs.NL Proofs.Fused
+
+/-- **log_softmax = log ∘ softmax** (mathematical `Real.log`), as arrays, for EVERY real array of any rank and any
+    axis: the max-shifted `x − m − log Σ exp(x − m)` the kernel evaluates is the logarithm of every entry of the
+    max-shifted quotient `exp(x − m) / Σ exp(x − m)`; the two kernels also reject exactly the same calls (rank 0,
+    axis out of range, empty axis), so there is no hypothesis. -/
+theorem log_softmax_is_log_softmax (x : NDArray ℝ) (axis : Int) :
+    logSoftmaxForward x axis = (softmaxForward x axis).map (fun s => s.map Real.log) :=
+  Proofs.Fused.log_softmax_is_log_softmax x axis
+
+/-- non-vacuity: an accepted call (both sides are `some`) -/
+example : ∃ s, softmaxForward (⟨[2, 2], [1, 2, 3, 4]⟩ : NDArray ℝ) (-1) = some s := by
+  simp [softmaxForward, normAxis]
+
+/-- the same entry by entry on the accepted calls (valid axis, non-empty along it): both sides are accepted, well-formed,
+    of the operand's shape, every softmax entry is positive and `log_softmax[i] = Real.log (softmax[i])` -/
+theorem log_softmax_entries (x : NDArray ℝ) (axis : Int) (ax : Nat)
+    (hax : normAxis x.shape.length axis = some ax) (hn : x.shape.getD ax 0 ≠ 0) :
+    ∃ ls s, logSoftmaxForward x axis = some ls ∧ softmaxForward x axis = some s ∧
+      ls.WF ∧ s.WF ∧ ls.shape = x.shape ∧ s.shape = x.shape ∧
+      ∀ i, validIdx x.shape i → 0 < s.get i ∧ ls.get i = Real.log (s.get i) :=
+  Proofs.Fused.log_softmax_entries x axis ax hax hn
+
+example : ∃ ax, normAxis (⟨[2, 2], [1, 2, 3, 5]⟩ : NDArray ℝ).shape.length (-1) = some ax ∧
+    (⟨[2, 2], [1, 2, 3, 5]⟩ : NDArray ℝ).shape.getD ax 0 ≠ 0 := ⟨1, by decide, by decide⟩
+
+/-- **the LIBRARY's `log` of softmax is not log_softmax**: `log` computes `log(x + 1e-12)` (by design, DESIGN §12.4 D15),
+    so on every accepted call and at every entry `log(softmax(x))[i] = log_softmax(x)[i] + Real.log (1 + ε / softmax(x)[i])`:
+    strictly larger than `log_softmax(x)[i]`, by at most `ε / softmax(x)[i]` (`ε = 1e-12`). -/
+theorem library_log_of_softmax (x : NDArray ℝ) (axis : Int) (ax : Nat)
+    (hax : normAxis x.shape.length axis = some ax) (hn : x.shape.getD ax 0 ≠ 0) :
+    ∃ ls s, logSoftmaxForward x axis = some ls ∧ softmaxForward x axis = some s ∧
+      (logForward s).shape = ls.shape ∧
+      ∀ i, validIdx x.shape i →
+        (logForward s).get i = ls.get i + Real.log (1 + (epsilon : ℝ) / s.get i) ∧
+        ls.get i < (logForward s).get i ∧
+        (logForward s).get i - ls.get i ≤ (epsilon : ℝ) / s.get i :=
+  Proofs.Fused.library_log_of_softmax x axis ax hax hn
+
+/-- concrete witness: on `x = [0, 0]` the library composition `log(softmax(x))` differs from `log_softmax(x)` -/
+theorem library_log_of_softmax_counterexample :
+    ∃ (x : NDArray ℝ) (ls s : NDArray ℝ), x.WF ∧ logSoftmaxForward x 0 = some ls ∧ softmaxForward x 0 = some s ∧
+      logForward s ≠ ls :=
+  Proofs.Fused.library_log_of_softmax_counterexample
+
+/-- **BCE-with-logits against BCE ∘ sigmoid, exact relation for arbitrary targets and broadcasting operands**: both
+    composite kernels are accepted (exactly when the shapes broadcast, `bce_both_reject`), and with
+    `gap = t·log(1 + ε/σ(x)) + (1−t)·log(1 + ε/(1−σ(x)))` (`ε = 1e-12`, the guard inside `bceForward`'s two logarithms;
+    `Proofs.Fused.bceGap`) entry `i` of `BCE(sigmoid x, t)` is `BCEL(x, t)[i] − gap`, unless that number equals `−log ε`,
+    in which case `bceForward`'s clamp turns it into `100`. -/
+theorem bce_logits_vs_bce_sigmoid (x y : NDArray ℝ) (hx : x.WF) (s : Shape)
+    (hs : broadcastShapes x.shape y.shape = some s) :
+    ∃ l r, bceLogitsForward x y = some l ∧ bceForward (sigmoidForward x) y = some r ∧ l.shape = s ∧ r.shape = s ∧
+      ∀ i, validIdx s i →
+        r.get i = (let gap := bceGap (x.get (bcastIdx x.shape i)) (y.get (bcastIdx y.shape i))
+          if l.get i - gap = -(Real.log (epsilon : ℝ)) then 100 else l.get i - gap) :=
+  Proofs.Fused.bce_logits_vs_bce_sigmoid x y hx s hs
+
+/-- non-vacuity: a (2,1) logit column against a (2,) target row broadcasts to (2,2) -/
+example : (⟨[2, 1], [0.5, -3]⟩ : NDArray ℝ).WF ∧
+    broadcastShapes (⟨[2, 1], [0.5, -3]⟩ : NDArray ℝ).shape (⟨[2], [0, 1]⟩ : NDArray ℝ).shape = some [2, 2] :=
+  ⟨by simp [NDArray.WF, Shape.size], by decide⟩
+
+/-- when the shapes do not broadcast, neither side is accepted -/
+theorem bce_both_reject (x y : NDArray ℝ) (hs : broadcastShapes x.shape y.shape = none) :
+    bceLogitsForward x y = none ∧ bceForward (sigmoidForward x) y = none :=
+  Proofs.Fused.bce_both_reject x y hs
+
+example : broadcastShapes (⟨[2], [0, 1]⟩ : NDArray ℝ).shape (⟨[3], [0, 1, 1]⟩ : NDArray ℝ).shape = none := by decide
+
+/-- **BCE-with-logits against BCE ∘ sigmoid for targets in `[0,1]`** (a decidable condition on the target entries; over ℝ
+    `sigmoid` lies strictly inside `(0,1)`, so `bceForward`'s clamp at `−log ε` is provably inactive): the naive equality
+    is FALSE at every entry — `BCE(sigmoid x, t)[i] < BCEL(x, t)[i]` — the deviation is exactly `gap` and at most
+    `ε·(t·(1+e^{−x}) + (1−t)·(1+e^{x}))`.  (In float64 `sigmoid` saturates to 0 or 1 for |x| ≳ 37 and the two sides then
+    differ by far more; the check therefore compares them on moderate logits only.) -/
+theorem bce_logits_vs_bce_sigmoid_unit_targets (x y : NDArray ℝ) (hx : x.WF) (s : Shape)
+    (hs : broadcastShapes x.shape y.shape = some s)
+    (hy : ∀ i, validIdx s i → 0 ≤ y.get (bcastIdx y.shape i) ∧ y.get (bcastIdx y.shape i) ≤ 1) :
+    ∃ l r, bceLogitsForward x y = some l ∧ bceForward (sigmoidForward x) y = some r ∧ l.shape = s ∧ r.shape = s ∧
+      ∀ i, validIdx s i →
+        l.get i - r.get i = bceGap (x.get (bcastIdx x.shape i)) (y.get (bcastIdx y.shape i)) ∧
+        r.get i < l.get i ∧
+        l.get i - r.get i ≤ (epsilon : ℝ) * (y.get (bcastIdx y.shape i) * (1 + Real.exp (-(x.get (bcastIdx x.shape i)))) +
+          (1 - y.get (bcastIdx y.shape i)) * (1 + Real.exp (x.get (bcastIdx x.shape i)))) :=
+  Proofs.Fused.bce_logits_vs_bce_sigmoid_unit_targets x y hx s hs hy
+
+/-- non-vacuity: logits `[0.5, −3]`, targets `[0, 1]` -/
+example : (⟨[2], [0.5, -3]⟩ : NDArray ℝ).WF ∧
+    broadcastShapes (⟨[2], [0.5, -3]⟩ : NDArray ℝ).shape (⟨[2], [0, 1]⟩ : NDArray ℝ).shape = some [2] ∧
+    ∀ i, validIdx [2] i → 0 ≤ (⟨[2], [0, 1]⟩ : NDArray ℝ).get (bcastIdx [2] i) ∧
+      (⟨[2], [0, 1]⟩ : NDArray ℝ).get (bcastIdx [2] i) ≤ 1 := by
+  refine ⟨by simp [NDArray.WF, Shape.size], by decide, fun i hi => ?_⟩
+  have : i = [0] ∨ i = [1] := by
+    match i, hi with
+    | [k], hk =>
+      simp only [validIdx, and_true] at hk
+      have : k = 0 ∨ k = 1 := by omega
+      rcases this with rfl | rfl <;> simp
+  rcases this with rfl | rfl <;> simp [bcastIdx, NDArray.get, ravel, Shape.size]
+
+/-- the naive equality `BCE-with-logits = BCE ∘ sigmoid` is false of the kernels: logits `[0]`, targets `[1]` -/
+theorem bce_logits_ne_bce_sigmoid_counterexample :
+    ∃ (x y l r : NDArray ℝ), x.WF ∧ y.WF ∧ bceLogitsForward x y = some l ∧ bceForward (sigmoidForward x) y = some r ∧
+      l ≠ r :=
+  Proofs.Fused.bce_logits_ne_bce_sigmoid_counterexample
+
+/-- without the guard the identity is exact: `−(t·log σ(x) + (1−t)·log(1−σ(x))) = (1−t)·x + log(1 + e^{−x})`, and the
+    right-hand side is what the stabilised with-logits kernel evaluates (`Proofs.NL.bce_logits_scalar_eq`) -/
+theorem bce_sigmoid_no_eps (x t : ℝ) :
+    -(t * Real.log (sigm x) + (1 - t) * Real.log (1 - sigm x)) = (1 - t) * x + Real.log (1 + Real.exp (-x)) ∧
+    bceLogitsScalar x t = (1 - t) * x + Real.log (1 + Real.exp (-x)) :=
+  ⟨Proofs.Fused.bce_sigmoid_no_eps x t, bce_logits_scalar_eq _ x t⟩
+
+end Real
+
+/-! ## modules  (model definitions in `SynapModel/ModuleFwd.lean`, proofs in `Proofs/FusedModules.lean`) -/
+section Modules
+open Synap.Modules Synap.ModuleFwd Proofs.FusedMod
+
+/-- **Sequential = composition of its modules**: the model of `Sequential(*modules)(x)` (the Python loop
+    `out = module(inp); inp = out` over `submodules()`) is the left fold, in the `Option` monad with the state threaded,
+    of the member forwards in registration (argument) order — for every list of module ids (repeated ids included),
+    every member behaviour `call` (stateful, failing), and every world the container is built in. -/
+theorem sequential_is_composition {σ τ : Type} (call : Nat → σ → τ → Option (σ × τ)) (w : World) (ks : List Nat) (st : σ) (x : τ) :
+    sequentialForward call (sequential w ks).1 (sequential w ks).2 st x = ks.foldlM (fun acc k => call k acc.1 acc.2) (st, x) :=
+  Proofs.FusedMod.sequential_is_composition call w ks st x
+
+/-- on ANY module (however its `_submodules` registry came about): the fold over `submodules()` -/
+theorem sequentialForward_eq_fold {σ τ : Type} (call : Nat → σ → τ → Option (σ × τ)) (w : World) (m : Nat) (st : σ) (x : τ) :
+    sequentialForward call w m st x = (applyOrder w m).foldlM (fun acc k => call k acc.1 acc.2) (st, x) :=
+  Proofs.FusedMod.sequentialForward_eq_fold call w m st x
+
+/-- members that neither fail nor touch the state: plain function composition `f_{k_n} ∘ … ∘ f_{k_1}` -/
+theorem sequential_is_function_composition {σ τ : Type} (f : Nat → τ → τ) (w : World) (ks : List Nat) (st : σ) (x : τ) :
+    sequentialForward (fun k s t => some (s, f k t)) (sequential w ks).1 (sequential w ks).2 st x =
+      some (st, ks.foldl (fun t k => f k t) x) :=
+  Proofs.FusedMod.sequential_is_function_composition f w ks st x
+
+/-- the empty `Sequential` is the identity (D32) and a one-member `Sequential` is that member -/
+theorem sequential_nil_single {σ τ : Type} (call : Nat → σ → τ → Option (σ × τ)) (w : World) (k : Nat) (st : σ) (x : τ) :
+    sequentialForward call (sequential w []).1 (sequential w []).2 st x = some (st, x) ∧
+    sequentialForward call (sequential w [k]).1 (sequential w [k]).2 st x = call k st x :=
+  Proofs.FusedMod.sequential_nil_single call w k st x
+
+/-- `Sequential(*ks₁, *ks₂) = Sequential(*ks₂) ∘ Sequential(*ks₁)` -/
+theorem sequential_append {σ τ : Type} (call : Nat → σ → τ → Option (σ × τ)) (w w1 w2 : World) (ks1 ks2 : List Nat) (st : σ) (x : τ) :
+    sequentialForward call (sequential w (ks1 ++ ks2)).1 (sequential w (ks1 ++ ks2)).2 st x =
+      (sequentialForward call (sequential w1 ks1).1 (sequential w1 ks1).2 st x).bind (fun r =>
+        sequentialForward call (sequential w2 ks2).1 (sequential w2 ks2).2 r.1 r.2) :=
+  Proofs.FusedMod.sequential_append call w w1 w2 ks1 ks2 st x
+
+/-- **Sequential(OrderedDict) = composition of the dictionary's values in insertion order** (distinct keys) -/
+theorem sequentialDict_is_composition {σ τ : Type} (call : Nat → σ → τ → Option (σ × τ)) (w : World) (ks : List (String × Nat))
+    (hk : (ks.map (·.1)).Nodup) (st : σ) (x : τ) :
+    sequentialForward call (sequentialDict w ks).1 (sequentialDict w ks).2 st x =
+      (ks.map (·.2)).foldlM (fun acc k => call k acc.1 acc.2) (st, x) :=
+  Proofs.FusedMod.sequentialDict_is_composition call w ks hk st x
+
+/-- non-vacuity: three distinct names, one module object registered twice -/
+example : (([("a", 0), ("b", 1), ("c", 0)] : List (String × Nat)).map (·.1)).Nodup := by decide
+
+/-- a concrete run: the member with id `k` adds `k + 1`; `Sequential(m2, m0, m2)` maps `10` to `10 + 3 + 1 + 3` -/
+example : sequentialForward (σ := Unit) (fun k s (t : Nat) => some (s, t + k + 1)) (sequential World.empty [2, 0, 2]).1
+    (sequential World.empty [2, 0, 2]).2 () 10 = some ((), 17) := by decide
+
+/-- **Neuron = Linear with one output**: `Neuron(in, bias)` IS the object `Linear(in, 1, bias)` — weight of shape
+    `(1, in)`, bias of shape `(1,)` or absent — its forward is `Linear.forward`, i.e. `F.linear(x, weight, bias)` behind
+    the `x.shape[1] == in_features` assertion (no activation), and by `linear_is_addmm` that is `x @ W.T (+ b)`. -/
+theorem neuron_is_linear {β : Type} [Zero β] [Add β] [Mul β] (inF : Nat) (bias : Bool) (wv bv : List β) (x : NDArray β) :
+    Neuron.init inF bias wv bv = Linear.init inF 1 bias wv bv ∧
+    (Neuron.init inF bias wv bv).weight.shape = [1, inF] ∧
+    (Neuron.init inF bias wv bv).bias.map (·.shape) = (if bias then some [1] else none) ∧
+    Neuron.forward (Neuron.init inF bias wv bv) x = Linear.forward (Linear.init inF 1 bias wv bv) x ∧
+    (x.shape[1]? = some inF →
+      Neuron.forward (Neuron.init inF bias wv bv) x =
+        linearForward x ⟨[1, inF], wv⟩ (if bias then some ⟨[1], bv⟩ else none)) ∧
+    (x.shape[1]? ≠ some inF → Neuron.forward (Neuron.init inF bias wv bv) x = none) :=
+  Proofs.FusedMod.neuron_is_linear inF bias wv bv x
+
+/-- non-vacuity, and the value: a `Neuron(3)` with weights `[1,2,3]`, bias `[10]` on a `(2,3)` batch gives the `(2,1)` column
+    of the two dot products plus the bias -/
+example : Neuron.forward (Neuron.init 3 true [1, 2, 3] [10]) (⟨[2, 3], [1, 0, 0, 1, 1, 1]⟩ : NDArray Int) =
+    some ⟨[2, 1], [11, 16]⟩ := by rfl
+
+end Modules
+
+/-! ## gradients  (proofs in `Proofs/FusedGrad.lean`) -/
+section Grad
+open Proofs.Adjoint Proofs.NL
+
+/-- **equal forwards have equal backwards (linear ops, any commutative ring)**: if `F` and `G` agree on every well-formed
+    operand of shape `sa`, `B_F` is an adjoint (`IsAdjoint`: the VJP of a linear map, total, right shape) of `F` and `B_G`
+    one of `G`, then `B_F g = B_G g` for every upstream gradient `g`. -/
+theorem grad_eq_of_forward_eq {S : Type} [CommRing S] (sa sy : Shape) (F G BF BG : NDArray S → Option (NDArray S))
+    (hF : IsAdjoint sa sy F BF) (hG : IsAdjoint sa sy G BG)
+    (hFG : ∀ v : NDArray S, v.WF → v.shape = sa → F v = G v)
+    (g : NDArray S) (hg : g.WF) (hs : g.shape = sy) : BF g = BG g :=
+  Proofs.FusedGrad.adjoint_grad_eq_of_forward_eq sa sy F G BF BG hF hG hFG g hg hs
+
+/-- non-vacuity: `neg` and `v ↦ −v` written twice satisfy the hypotheses (`Props.C01.neg_vjp`) -/
+example : IsAdjoint (R := Int) [2] [2] (fun v => some (negForward v)) (fun g => some (negBackward g)) :=
+  Proofs.Adjoint.neg_adj [2]
+
+/-- **equal forwards have equal backwards (nonlinear ops over ℝ)**: the same with `IsVJPAt` (derivative of
+    `t ↦ ⟪F(a + t·v), g⟫` at 0 is `⟪v, B g⟫` for every direction `v`) at the point `a`. -/
+theorem vjp_grad_eq_of_forward_eq (F G : NDArray ℝ → Option (NDArray ℝ)) (a : NDArray ℝ) (ha : a.WF) (sy : Shape)
+    (BF BG : NDArray ℝ → Option (NDArray ℝ)) (hF : IsVJPAt F a sy BF) (hG : IsVJPAt G a sy BG)
+    (hFG : ∀ z : NDArray ℝ, z.WF → z.shape = a.shape → F z = G z)
+    (g : NDArray ℝ) (hg : g.WF) (hs : g.shape = sy) : BF g = BG g :=
+  Proofs.FusedGrad.vjpAt_grad_eq_of_forward_eq F G a ha sy BF BG hF hG hFG g hg hs
+
+/-- **chain rule for a linear op after a nonlinear one**: the composition side of an identity has a VJP made of the
+    members' backward kernels in reverse order (for two linear ops: `Proofs.Adjoint.IsAdjoint.comp`) -/
+theorem vjp_comp_adjoint {F B L BL : NDArray ℝ → Option (NDArray ℝ)} {a : NDArray ℝ} {sm sy : Shape}
+    (hF : IsVJPAt F a sm B) (hL : IsAdjoint sm sy L BL) :
+    IsVJPAt (fun x => (F x).bind L) a sy (fun g => (BL g).bind B) :=
+  Proofs.FusedGrad.IsVJPAt.comp_adjoint hF hL
+
+/-- **gradient of cross-entropy = gradient of NLL ∘ log_softmax**: for every accepted call and every upstream gradient the
+    fused backward kernel returns exactly what the chain rule through `nll_loss` and `log_softmax` returns -/
+theorem cross_entropy_grad_is_nll_log_softmax_grad (x y ls : NDArray ℝ) (labels : List Nat) (hx : x.WF)
+    (h : crossEntropyForward x labels = some y) (hls : logSoftmaxForward x 1 = some ls)
+    (g : NDArray ℝ) (hg : g.WF) (hgs : g.shape = y.shape) :
+    crossEntropyBackward g x labels = logSoftmaxBackward (nllBackward g ls labels) ls 1 :=
+  Proofs.FusedGrad.cross_entropy_grad_is_nll_log_softmax_grad x y ls labels hx h hls g hg hgs
+
+example : ∃ y ls, crossEntropyForward (⟨[2, 2], [1, 2, 3, 4]⟩ : NDArray ℝ) [0, 1] = some y ∧
+    logSoftmaxForward (⟨[2, 2], [1, 2, 3, 4]⟩ : NDArray ℝ) 1 = some ls := by
+  simp [crossEntropyForward, logSoftmaxForward, normAxis, nllForward, Proofs.Core.ofFn_shape]
+
+/-- **gradients of linear = gradients of `x @ transpose(W)`**, both operands: w.r.t. `x` the `matmul` backward (left
+    operand); w.r.t. `W` the `matmul` backward (right operand) followed by the `transpose` backward -/
+theorem linear_grads_are_matmul_grads {S : Type} [CommRing S] (x w wt y : NDArray S) (hx : x.WF) (hw : w.WF)
+    (h : linearForward x w none = some y) (hwt : transposeForward w 0 1 = some wt)
+    (g : NDArray S) (hg : g.WF) (hgs : g.shape = y.shape) :
+    (linearBackward g x w none).map (·.1) = (matmulBackward g x wt).map (·.1) ∧
+    (linearBackward g x w none).map (·.2.1) = ((matmulBackward g x wt).map (·.2)).bind (fun gwt => transposeBackward gwt 0 1) :=
+  ⟨Proofs.FusedGrad.linear_grad_x_is_matmul_grad x w wt y hx hw h hwt g hg hgs,
+   Proofs.FusedGrad.linear_grad_w_is_transpose_matmul_grad x w wt y hx hw h hwt g hg hgs⟩
+
+example : ∃ y wt, linearForward (⟨[1, 2], [1, 2]⟩ : NDArray Int) ⟨[3, 2], [1, 2, 3, 4, 5, 6]⟩ none = some y ∧
+    transposeForward (⟨[3, 2], [1, 2, 3, 4, 5, 6]⟩ : NDArray Int) 0 1 = some wt := ⟨_, _, rfl, rfl⟩
+
+/-- **gradient of mean = gradient of sum / count**: the fused backward kernel returns what the chain rule through "divide
+    by the count" and `sum` returns -/
+theorem mean_grad_is_sum_div_grad {F : Type} [Field F] (a y : NDArray F) (ax : Axes) (keep : Bool) (axes : List Nat) (ha : a.WF)
+    (h : meanForward a ax keep = some y) (hax : ax.norm a.shape.length = some axes)
+    (g : NDArray F) (hg : g.WF) (hgs : g.shape = y.shape) :
+    meanBackward g a.shape ax keep =
+      sumBackward (g.map (· / (((axes.map (fun k => a.shape.getD k 0)).foldr (· * ·) 1 : Nat) : F))) a.shape ax keep :=
+  Proofs.FusedGrad.mean_grad_is_sum_div_grad a y ax keep axes ha h hax g hg hgs
+
+example : ∃ y axes, meanForward (⟨[2, 2], [1, 2, 3, 4]⟩ : NDArray ℝ) (.one 1) false = some y ∧
+    (Axes.one 1).norm (⟨[2, 2], [1, 2, 3, 4]⟩ : NDArray ℝ).shape.length = some axes := by
+  simp [meanForward, Np.sum, Axes.norm, normAxis]
+
+end Grad
 
 end Props.C14
